@@ -34,7 +34,7 @@ SYN = ["IonotropicSynapse", "TestSynapse", "TanhRateSynapse"]
 
 
 def budget(tier):
-    return 40 if tier == "quick" else 600
+    return 60 if tier == "quick" else 800
 
 
 @st.composite
